@@ -502,6 +502,57 @@ func (g *Graph) DefOf(id *ast.Ident, at Site) (rhs ast.Expr, idx int) {
 	return
 }
 
+// ReachingDefsAvoiding lists the assignments to the variable that reach the use along backward paths that take none
+// of the cut edges (b -> b.Succs[k]); entry reports that the function entry is reached without any assignment.
+func (g *Graph) ReachingDefsAvoiding(id *ast.Ident, at Site, cut func(b *Block, k int) bool) (defs []ast.Node, entry bool) {
+	f := g.Fn
+	obj := f.ObjOf(id)
+	if obj == nil || at.B == nil {
+		return nil, true
+	}
+	preds := g.Preds()
+	seen := map[*Block]bool{}
+	have := map[ast.Node]bool{}
+	var back func(b *Block, from int)
+	back = func(b *Block, from int) {
+		for i := from; i >= 0; i-- {
+			if i >= len(b.Nodes) {
+				continue
+			}
+			nd := b.Nodes[i]
+			if nd.End() > id.Pos() && b == at.B && i == at.I {
+				continue
+			}
+			if _, _, _, ok := f.assignTo(nd, obj); ok {
+				if !have[nd] {
+					have[nd] = true
+					defs = append(defs, nd)
+				}
+				return
+			}
+		}
+		if len(preds[b]) == 0 {
+			entry = true
+			return
+		}
+		for _, p := range preds[b] {
+			skip := true
+			for k, s := range p.Succs {
+				if s == b && (cut == nil || !cut(p, k)) {
+					skip = false
+				}
+			}
+			if skip || seen[p] {
+				continue
+			}
+			seen[p] = true
+			back(p, len(p.Nodes)-1)
+		}
+	}
+	back(at.B, at.I)
+	return defs, entry
+}
+
 type defKey struct {
 	id *ast.Ident
 	b  *Block
